@@ -2,7 +2,7 @@
 // Scenario: a loop thread inside run(stop_token); a writer thread pushes a generated list of chunks (1 byte .. more than
 // the pipe capacity) through async_write_some; a reader thread drains the pipe with async_read_some into buffers of
 // generated sizes, each read with its own stop source; a stopper thread cancels reads at generated points (before start,
-// while parked, any time); 0-2 producer threads schedule() work remotely, 0-2 timers run; the n-th readv/writev of the case
+// while parked, any time); 0-2 producer threads schedule() work remotely, 0-4 timers with close due times run concurrently and are stopped remotely around their expiry; the n-th readv/writev of the case
 // may fail with a generated errno or transfer half of what was asked.  Operation states live in exact-size heap blocks
 // that are freed as soon as the operation completes (ASan sees a late touch by the context).
 // Oracles: the bytes delivered by successful reads, concatenated, equal the bytes accepted by successful writes, in order;
@@ -65,7 +65,7 @@ struct Script {
   std::vector<int> chunks;        // write sizes
   std::vector<int> bufs;          // read buffer sizes (cycled)
   std::vector<std::pair<int, int>> stops;   // (read index, delay in yields; -1 = before start)
-  int producers = 0, per_producer = 0; int timers = 0;
+  int producers = 0, per_producer = 0; int timers = 0; int timer_us[4] = {0, 0, 0, 0}; std::vector<std::pair<int, int>> timer_stops;
   long fault_which = -1, fault_nth = -1, fault_err = 0;
 };
 
@@ -166,15 +166,25 @@ void run_script(const Script& sc, bool check, bool& nontrivial) {
     });
     std::thread timers;
     if (sc.timers > 0) timers = std::thread([&] {
+      // a group of timers with close due times runs concurrently; some are stopped from this (remote) thread around their expiry
+      auto t0 = now(sched);
+      using S = decltype(schedule_at(sched, t0));
+      std::vector<std::unique_ptr<Box<S>>> boxes; std::vector<OpRec*> mine; std::vector<decltype(t0)> due;
       for (int k = 0; k < sc.timers; ++k) {
-        OpRec& o = W.add(3);
-        auto due = now(sched) + std::chrono::microseconds(300 * (k + 1));
-        using S = decltype(schedule_at(sched, due));
-        Box<S> box; box.go(schedule_at(sched, due), &o);
-        dk::wait_for([&] { return o.signals > 0; });
-        if (check && o.chan == dk::VALUE && now(sched) < due) cx.fail(P, "timer_early", "schedule_at completed before its due time");
-        box.b.reset();
+        OpRec& o = W.add(3); mine.push_back(&o);
+        due.push_back(t0 + std::chrono::microseconds(sc.timer_us[k]));
+        boxes.emplace_back(new Box<S>()); boxes.back()->go(schedule_at(sched, due.back()), &o);
       }
+      for (auto& st : sc.timer_stops) {
+        for (int y = 0; y < st.second; ++y) detsched::yield_now();
+        OpRec* o = mine[(size_t)st.first % mine.size()];
+        if (o->t_stop < 0) { o->t_stop = dk::tick(); cx.tr("#%ld timers: request_stop on timer %d", o->t_stop, st.first % (int)mine.size()); o->src->request_stop(); }
+      }
+      for (size_t k = 0; k < mine.size(); ++k) {
+        dk::wait_for([&] { return mine[k]->signals > 0; });
+        if (check && mine[k]->chan == dk::VALUE && now(sched) < due[k]) cx.fail(P, "timer_early", "schedule_at completed before its due time");
+      }
+      boxes.clear();
     });
     writer.join(); reader.join();
     if (stopper.joinable()) stopper.join();
@@ -206,7 +216,8 @@ void run_script(const Script& sc, bool check, bool& nontrivial) {
   if (reads_cancelled) cx.label("read-cancelled");
   if (reads_parked_cancel) cx.label("stop-while-read-outstanding");
   if (total_to_write > 65536) cx.label("write-larger-than-pipe-capacity");
-  nontrivial = written >= 2 && (reads_cancelled > 0 || sc.producers > 0 || total_to_write > 65536 || fault_armed);
+  nontrivial = written >= 2 && (reads_cancelled > 0 || sc.producers > 0 || total_to_write > 65536 || fault_armed || (sc.timers >= 2 && !sc.timer_stops.empty()));
+  if (sc.timers >= 2 && !sc.timer_stops.empty()) cx.label("concurrent-timers-with-remote-stop");
 }
 
 }  // namespace
@@ -214,7 +225,7 @@ void run_script(const Script& sc, bool check, bool& nontrivial) {
 extern "C" const char* vk_harness_name() { return "c14_epoll"; }
 const char* vk_nontrivial_rule() {
   return "scripts: writer thread (1-4 chunks of 1 B .. 96 KiB, pipe capacity 64 KiB), reader thread (buffers of 1 B .. 80 KiB, each read with its own stop source), stopper thread (stop before start / after a generated number of yields), 0-2 remote producer threads x 1-3 schedule(), "
-         "0-2 timers, the n-th readv/writev failing with EIO/EINTR/ENOMEM or transferring half; schedule from the same bytes (detsched, epoll_wait hooked). non-trivial = at least 2 bytes transferred and one of: a read was cancelled, remote producers ran, a write exceeded the pipe capacity, a syscall fault was armed";
+         "0-4 concurrent timers with remote stops, the n-th readv/writev failing with EIO/EINTR/ENOMEM or transferring half; schedule from the same bytes (detsched, epoll_wait hooked). non-trivial = at least 2 bytes transferred and one of: a read was cancelled, remote producers ran, a write exceeded the pipe capacity, a syscall fault was armed";
 }
 
 void vk_run_case(vk::Choice& c) {
@@ -231,9 +242,13 @@ void vk_run_case(vk::Choice& c) {
   sc.producers = (int)c.upto(3); sc.per_producer = 1 + (int)c.upto(3);
   sc.timers = c.chance(1, 4) ? 1 + (int)c.upto(2) : 0;
   if (c.chance(1, 3)) { sc.fault_which = (long)c.upto(2); sc.fault_nth = (long)c.upto(6); int e = (int)c.upto(4); sc.fault_err = e == 0 ? EIO : e == 1 ? ENOMEM : e == 2 ? EINTR : -1; }
+  // (decoded last so that byte strings recorded before the timer group existed keep their meaning)
+  if (c.chance(1, 3)) sc.timers = 1 + (int)c.upto(4);
+  for (int k = 0; k < sc.timers; ++k) sc.timer_us[k] = (int)c.upto(8) * 60;
+  if (sc.timers) { int nst = (int)c.upto(4); for (int k = 0; k < nst; ++k) sc.timer_stops.push_back({(int)c.upto(4), (int)c.upto(10)}); }
   cx.desc = "chunks={"; for (int x : sc.chunks) cx.desc += vk::sfmt("%d ", x); cx.desc += "} bufs={"; for (int x : sc.bufs) cx.desc += vk::sfmt("%d ", x);
   cx.desc += "} stops={"; for (auto& s : sc.stops) cx.desc += vk::sfmt("read%d@%d ", s.first, s.second);
-  cx.desc += vk::sfmt("} producers=%dx%d timers=%d fault=%s#%ld:%ld", sc.producers, sc.per_producer, sc.timers, sc.fault_which < 0 ? "none" : sc.fault_which == 0 ? "readv" : "writev", sc.fault_nth, sc.fault_err);
+  cx.desc += vk::sfmt("} producers=%dx%d timers=%d(stops=%zu) fault=%s#%ld:%ld", sc.producers, sc.per_producer, sc.timers, sc.timer_stops.size(), sc.fault_which < 0 ? "none" : sc.fault_which == 0 ? "readv" : "writev", sc.fault_nth, sc.fault_err);
   bool nt = false;
   detsched::Options o; o.max_steps = 60000;
   auto res = detsched::run(c, o, [&] { bool dry = detsched::in_dry_run(); bool ig = false; run_script(sc, !dry, dry ? ig : nt); });
